@@ -42,8 +42,14 @@ func (m *PositionMapper) LSPToByte(pos protocol.Position) int {
 	if line >= len(m.lines) {
 		return len(m.content)
 	}
+	lineText := m.lines[line]
+	if line < len(m.lines)-1 {
+		// The CR of a CRLF line ending belongs to the terminator, not to the line:
+		// a character past the end of the line clamps to before the CR.
+		lineText = strings.TrimSuffix(lineText, "\r")
+	}
 	byteOffset := m.lineStarts[line]
-	byteOffset += UTF16OffsetToByteOffset(m.lines[line], int(pos.Character))
+	byteOffset += UTF16OffsetToByteOffset(lineText, int(pos.Character))
 	return byteOffset
 }
 
